@@ -24,14 +24,14 @@ MUST_REACH = ['photutils.segmentation.detect:detect_sources',
               'photutils.segmentation.detect:detect_threshold']
 ANCHOR_FILES = ['segmentation/detect.py', 'segmentation/utils.py', 'segmentation/core.py',
                 'segmentation/finder.py']
-MIN_NONTRIVIAL = {'quick': 300, 'thorough': 5000}
+MIN_NONTRIVIAL = {'quick': 1000, 'thorough': 5000}
 ASSUMPTIONS = ['numpy comparison/indexing is trusted', 'astropy SigmaClip is trusted for detect_threshold defaults']
 
 
 def plan(tier):
     if tier == 'thorough':
         return dict(shards=16, cases=60000, timeout=2400, budget_s=900)
-    return dict(shards=4, cases=900, timeout=600, budget_s=120)
+    return dict(shards=4, cases=3000, timeout=600, budget_s=120)
 
 
 def selftest():
@@ -111,6 +111,63 @@ def _gen(case):
     return data, thr, npix, conn, mask
 
 
+def _relayout(rng, a):
+    """Same values, different memory layout (independent axis of every class)."""
+    k = int(rng.integers(0, 5))
+    if k == 0:
+        return a, 'C'
+    if k == 1:
+        return np.asfortranarray(a), 'F'
+    if k == 2:                                   # strided view into a larger array
+        big = np.zeros((a.shape[0] * 2 + 1, a.shape[1] * 3 + 2), a.dtype)
+        v = big[1::2, 2::3][:a.shape[0], :a.shape[1]]
+        v[...] = a
+        return v, 'strided'
+    if k == 3:                                   # transposed view of a C array
+        return np.ascontiguousarray(a.T).T, 'Tview'
+    if a.dtype.kind == 'f' and a.dtype.itemsize > 1:
+        return a.astype(a.dtype.newbyteorder('>')), 'bigendian'
+    return a, 'C'
+
+
+def _forms(case, data, thr, npix, mask):
+    """Generic axes drawn independently of the class: magnitude (exact powers of two), memory layout of
+    data / threshold / mask, call form of threshold and npixels. Values are unchanged (or scaled exactly), so the
+    reference labelling is unchanged."""
+    rng = case.rng
+    forms = []
+    if case.cls in ('threshold_fn',):
+        return data, thr, npix, mask, forms
+    if rng.random() < 0.4 and data.dtype.kind == 'f' and data.dtype.itemsize == 8 and case.cls != 'mixprec':
+        k = int(rng.choice([-60, -30, -17, -3, 5, 20, 40]))      # exact scaling by 2**k of data and threshold
+        with np.errstate(over='ignore', invalid='ignore'):
+            data = np.ldexp(data, k)
+            thr = np.ldexp(thr, k) if np.ndim(thr) else float(np.ldexp(thr, k))
+        forms.append(f'mag2^{k}')
+    if rng.random() < 0.5:
+        data, name = _relayout(rng, data)
+        forms.append('data:' + name)
+    if np.ndim(thr) and rng.random() < 0.5:
+        thr, name = _relayout(rng, thr)
+        forms.append('thr:' + name)
+    if mask is not None and rng.random() < 0.5:
+        mask, name = _relayout(rng, mask)
+        forms.append('mask:' + name)
+    if mask is not None and rng.random() < 0.2:
+        mask = mask.astype(np.uint8).astype(bool) if rng.random() < 0.5 else mask
+    if not np.ndim(thr) and case.cls != 'mixprec':
+        k = int(rng.integers(0, 4))
+        if k == 1:
+            thr = np.float64(thr); forms.append('thr:np.float64')
+        elif k == 2:
+            thr = np.array(thr); forms.append('thr:0d')
+        elif k == 3 and float(thr).is_integer() and abs(thr) < 2**31:
+            thr = int(thr); forms.append('thr:int')
+    if rng.random() < 0.3:
+        npix = np.int64(npix); forms.append('npixels:np.int64')
+    return data, thr, npix, mask, forms
+
+
 def _compare_segm(case, seg, ref, mech):
     from photutils.segmentation import SegmentationImage
     case.check(np.array_equal(seg.data, ref), 'labels_equal_reference', mech,
@@ -141,11 +198,14 @@ def run_case(case):
     from photutils.utils.exceptions import NoDetectionsWarning
     rng = case.rng
     data, thr, npix, conn, mask = _gen(case)
+    data, thr, npix, mask, forms = _forms(case, data, thr, npix, mask)
     if case.cls == 'mixprec' and np.ndim(thr) == 0:
         thr = np.float64(thr)     # a strongly typed scalar: numpy compares in float64 (a Python float would
         #                           be "weak" and legitimately compared in the image's own precision)
-    case.params = dict(shape=list(data.shape), npixels=npix, connectivity=conn,
-                       thr=('2d' if np.ndim(thr) else thr), masked=mask is not None)
+    case.params = dict(shape=list(data.shape), npixels=int(npix), connectivity=conn,
+                       thr=('2d' if np.ndim(thr) else float(thr)), masked=mask is not None, forms=forms)
+    for f in forms:
+        case.note('form:' + f)
     case.digest = core.arr_digest(data, np.asarray(thr), mask, np.array([npix, conn])) + case.cls
     mech = {'cls': case.cls}
 
